@@ -230,6 +230,8 @@ pub struct World {
     pub cooperative: bool,
     /// age (seconds) fabricated into stored Pending records at the last restart (R11d)
     pub aged: Option<u64>,
+    /// hashes whose stored record still carries the fabricated age
+    pub aged_hashes: Vec<(usize, u64)>,
     pub same_process_probes: u32,
     pub part_weight: u64,
     pub fault_weight: u64,
